@@ -441,6 +441,101 @@ PROPS["C16"] = {
 }
 
 
+def par_blocks(c):
+    t = c.split(" ")
+    ch, bs = int(t[8]), int(t[10])
+    n = 0 if t[11] == "-" else len(t[11].split(",")) // ch
+    return (n + bs - 1) // bs
+
+
+def par_model_input(c, o):
+    t = c.split(" ")
+    tr = o.split(" | ", 1)[1] if " | " in o else "F: | H: | M: | W:"
+    return "PARTRACE %s %s %d %s %s | %s" % (t[1], t[2], par_blocks(c), t[4], t[5], tr)
+
+
+def par_kind(x):
+    return "ok" if x.startswith("ok") else x
+
+
+def par_cmp_impl(o):
+    m = re.search(r"mt=(\S+)", o)
+    return "%s valid %s" % (o.split(" ", 1)[0], par_kind(m.group(1)) if m else "?")
+
+
+def par_cmp_model(o):
+    t = o.split(" ")
+    m = re.search(r"lts=(\S+)", o)
+    return "%s %s %s" % (t[0], t[1] if len(t) > 1 else "?", par_kind(m.group(1)) if m else "?")
+
+
+def par_oracle(pid, res, driver):
+    findings = []
+    data = res.stream_data.get("PAR")
+    stats = {"ok": 0, "err": 0, "traces_valid": 0}
+    if data:
+        for c, o, mo in zip(data["cases"], data["impl"].get("debug", []), data["model"]):
+            ms = re.search(r"st=(\S+) mt=(\S+) leaked=(\d+)", o)
+            short = {"case": c[:3000], "impl": o[:400]}
+            if not ms:
+                findings.append(dict(short, why="the multi-threaded run produced no result (crash or timeout of the harness)"))
+                continue
+            st, mt, leaked = ms.group(1), ms.group(2), int(ms.group(3))
+            if " valid " in mo:
+                stats["traces_valid"] += 1
+            if mt in ("panic", "hang"):
+                if pid == "C06" or st.startswith("ok"):
+                    findings.append(dict(short, why="multi-threaded encoding ended in a %s (single-threaded: %s)" % (mt, par_kind(st))))
+                continue
+            if pid == "C05" and st.startswith("ok"):
+                stats["ok"] += 1
+                if mt != st:
+                    findings.append(dict(short, why="multi-threaded output differs from single-threaded output"))
+            if pid == "C06":
+                if par_kind(mt) != par_kind(st):
+                    findings.append(dict(short, why="multi-threaded result kind %s differs from single-threaded %s" % (par_kind(mt), par_kind(st))))
+                elif leaked != 0:
+                    findings.append(dict(short, why="%d thread(s) started by the call were still running after it returned" % leaked))
+                if not st.startswith("ok"):
+                    stats["err"] += 1
+                ms2 = re.search(r"seq=(\S+)", mo)
+                if ms2 and par_kind(ms2.group(1)) != par_kind(st):
+                    findings.append(dict(short, why="single-threaded result %s differs from the sequential reference of the model %s" % (par_kind(st), ms2.group(1))))
+    res.extra["par_stats"] = stats
+    res.extra["traces_validated_against_impl"] = stats["traces_valid"]
+    if pid == "C05":
+        findings += [f for f in enc_oracle("C01", res, driver, "DLV")]
+    return findings
+
+
+PAR_STREAM = {"name": "PAR", "quick": 320, "thorough": 6000, "profiles": ["debug"], "model_from_impl": par_model_input,
+              "cmp": par_cmp_impl, "cmp_model": par_cmp_model, "shards": 6, "timeout": 2400,
+              "nontrivial": lambda c, o: o.count(",P") >= 3}
+PAR_RULE = ("PAR: multi-threaded encoding of 0..9 blocks (+ optional short tail) with 1..4 workers under seeded schedule perturbation "
+            "(yield / sleep 50-450us / spin at every hook point of par.rs, derived from the case seed), optionally a read error at read "
+            "index 0..blocks+1 and/or out-of-range samples in 1-2 blocks. Observables: result (bytes or error kind) vs the single-threaded "
+            "run on the same source, threads alive after return (/proc/self/task), timeout 20 s, and the event log turned into per-thread "
+            "label sequences that the extracted LTS (Model/Par.v) must accept as a run ending in the same outcome. Non-trivial = at least "
+            "three frames pushed by workers.")
+
+PROPS["C05"] = {
+    "coq": "theories/Props/C05.v",
+    "theorems": ["C05_all_schedules_w1_b1", "C05_all_schedules_w2_b1", "C05_all_schedules_w1_b0"],
+    "streams": "PAR+DLV", "rule": "PAR+DLV",
+    "oracle": par_oracle,
+    "assumptions": ["PARTIAL: theorems cover finite instances by complete schedule exploration; atomicity is that of the hook points; "
+                    "crossbeam channels and std Mutex are trusted to be linearizable FIFO queues / locks"],
+}
+PROPS["C06"] = {
+    "coq": "theories/Props/C06.v",
+    "theorems": ["C06_read_failure_w1", "C06_invalid_block_w1"],
+    "streams": [PAR_STREAM], "rule": PAR_RULE,
+    "oracle": par_oracle,
+    "assumptions": ["PARTIAL: finite-instance theorems; real thread exit and wall-clock termination are observed, not proved",
+                    "the 20 s timeout that decides 'hang' is > 100x the fault-free run time of the generated cases"],
+}
+
+
 def check_coq(pid, spec, res):
     """Build the proofs; returns True when the property's theorems are all checked."""
     closure = fv.dep_closure(spec["coq"])
@@ -508,16 +603,23 @@ def run_streams(pid, spec, tier, seed, res, replay_cases=None):
         if not cases:
             continue
         model_in = cases
+        pre_impl = None
         if st.get("augment"):
             aug = fv.run_lines([bins["debug"], "augment"], cases, timeout=st.get("timeout", 1500), key_index=1)
             model_in = aug
+        if st.get("model_from_impl"):
+            pre_impl = fv.run_lines(bins["debug"], cases, timeout=st.get("timeout", 1500), shards=st.get("shards", fv.NPROC))
+            model_in = [st["model_from_impl"](c, o) for c, o in zip(cases, pre_impl)]
         model_out = fv.run_lines([driver], model_in, timeout=st.get("timeout", 1500))
         res.stream_data[st["name"]] = {"cases": cases, "impl": {}, "model": model_out}
         for prof in st["profiles"]:
             if prof not in bins:
                 continue
-            impl_out = fv.run_lines(bins[prof], cases, timeout=st.get("timeout", 1500),
-                                    memlimit_kb=st.get("memlimit_kb"))
+            if pre_impl is not None and prof == "debug":
+                impl_out = pre_impl
+            else:
+                impl_out = fv.run_lines(bins[prof], cases, timeout=st.get("timeout", 1500),
+                                        memlimit_kb=st.get("memlimit_kb"), shards=st.get("shards", fv.NPROC))
             res.evaluations += len(cases)
             res.stream_data[st["name"]]["impl"][prof] = impl_out
             for c, io, mo in zip(cases, impl_out, model_out):
@@ -532,7 +634,8 @@ def run_streams(pid, spec, tier, seed, res, replay_cases=None):
                     kind = (io.split(" ") + ["?", "?"])[1]
                     dist[st["name"] + ":" + kind] = dist.get(st["name"] + ":" + kind, 0) + 1
                 cmpf = st.get("cmp")
-                if (cmpf(io) != cmpf(mo)) if cmpf else (io != mo):
+                cmpm = st.get("cmp_model", cmpf)
+                if (cmpf(io) != cmpm(mo)) if cmpf else (io != mo):
                     disagreements.append({"stream": st["name"], "profile": prof, "case": c, "impl": io, "model": mo})
     res.extra["distribution"] = dist
     res.disagreements = len(disagreements)
@@ -553,6 +656,9 @@ def run_check(pid, spec, tier, seed, replay):
     if spec.get("streams") == "CFG+ENC":
         spec["streams"] = [dict(CFG_STREAM), dict(ENC_STREAM)]
         spec["rule"] = CFG_RULE + " " + ENC_RULE
+    if spec.get("streams") == "PAR+DLV":
+        spec["streams"] = [dict(PAR_STREAM), dict(DLV_STREAM)]
+        spec["rule"] = PAR_RULE + DLV_RULE
     if spec.get("streams") == "DLV":
         spec["streams"] = [dict(DLV_STREAM)]
     if spec.get("rule") == "ENC+DLV":
